@@ -166,6 +166,7 @@ pub fn run(ctx: &Ctx) -> ! {
         let f = qast::features(q);
         f.count_filter + f.count_tag + f.count_output > 0 || f.layerless()
     }));
+    cfg_b.stream_share = 1.0;
     let sb = if ctx.elapsed() < ctx.budget_s() { Some(corpus::drive(ctx, &uni_small, &cfg_b, &|_| {}, &per_case, &|_, _| {})) } else { None };
 
     let mut c = cov();
